@@ -703,3 +703,38 @@ package io
 //@   loop 2 invariant 0 <= i && i <= n && enc.refer.last == old(enc.refer.last) + ite(enc.simple, 0, nn_count(elems(slice), off(slice), n)) && enc.simple == old(enc.simple)
 //@   ensures [one_number_per_non_nil_element] !enc.simple ==> enc.refer.last == old(enc.refer.last) + nn_count(elems(slice), off(slice), n)
 //@   ensures [simple_mode_numbers_nothing] enc.simple ==> enc.refer.last == old(enc.refer.last)
+
+// ---- integers on the wire: the digits the encoder writes are the number (C03, C01, C06) ------------
+//
+// dfold(A, a, b, acc): the left fold acc*10 + digit over A[a..b), which is exactly what the
+// decoder's readUint64 computes. toBytes is proved against it: the bytes it writes are digits,
+// have no leading zero, and fold to the number.
+
+// the lookup tables are what the contracts say they are (checked by evaluating the constants)
+//@ rule digit_tables prop=C05,C03,C01
+//@ global forall(k, 0, 10, digits[k] == 48 + k)
+//@ global forall(k, 0, 100, digit2[2 * k] == 48 + k / 10 && digit2[2 * k + 1] == 48 + k % 10)
+//@ global forall(k, 0, 1000, digit3[3 * k] == 48 + k / 100 && digit3[3 * k + 1] == 48 + (k / 10) % 10 && digit3[3 * k + 2] == 48 + k % 10)
+
+// induction step of the frame property of dfold (the axiom dfold_frame): if it holds from a+1 it holds from a
+//@ lemma dfold_frame_step C05 C03 C01
+//@   (declare-const A (Array Int Int)) (declare-const B (Array Int Int)) (declare-const a Int) (declare-const b Int) (declare-const acc Int)
+//@   (define-fun-rec f ((X (Array Int Int)) (x Int) (y Int) (c Int)) Int (ite (>= x y) c (f X (+ x 1) y (+ (* c 10) (- (select X x) 48)))))
+//@   (assert (forall ((j Int)) (=> (and (<= a j) (< j b)) (= (select A j) (select B j)))))
+//@   (assert (forall ((c Int)) (= (f A (+ a 1) b c) (f B (+ a 1) b c))))
+//@   (assert (not (= (f A a b acc) (f B a b acc))))
+//@   (check-sat)
+
+//@ func toBytes
+//@   prop C05 C03 C01
+//@   nopanic
+//@   requires len(buf) == 20 && 0 <= i && i <= 18446744073709551615
+//@   let i0 = i
+//@   modifies buf[*]
+//@   loop 1 invariant [shape] 0 <= off && off <= 20 && 0 <= i && i < pow10(off) && i <= i0
+//@   loop 1 invariant [folds_to_the_number] dfold(elems(buf), off(buf) + off, off(buf) + 20, i) == i0
+//@   loop 1 invariant [digits_only] forall(j, off(buf) + off, off(buf) + 20, isdigit(mem(buf, j)))
+//@   ensures [folds_to_the_number] 0 <= off && off <= 20 && dfold(elems(buf), off(buf) + off, off(buf) + 20, 0) == i0
+//@   ensures [digits_only] forall(j, off(buf) + off, off(buf) + 20, isdigit(mem(buf, j)))
+//@   ensures [no_leading_zero] i0 > 0 ==> off < 20 && mem(buf, off(buf) + off) != 48
+//@   ensures [zero_writes_nothing] i0 == 0 ==> off == 20
